@@ -273,6 +273,7 @@ pub fn configs(tier: Tier) -> Vec<InCfg> {
                 app_sends: vec![],
                 skip_connect: false,
                 known: vec![],
+                bp: 0,
             });
         }
     }
